@@ -107,26 +107,38 @@ static void cell(const std::string& fam, int lgk, long n, long T, uint64_t& next
       auto a = update_theta_sketch::builder().set_lg_k((uint8_t)lgk).build();
       auto b = update_theta_sketch::builder().set_lg_k((uint8_t)lgk).build();
       for (long j = 0; j < n; j++) { if (j % 2) a.update(base + j); else b.update(base + j); if (j % 4 == 0) a.update(base + j); }
-      auto u = theta_union::builder().set_lg_k((uint8_t)lgk).build(); u.update(a); u.update(b);
-      trial_event(u.get_result(), (double)n, false);
+      // one union object serves every trial of the cell: odd trials reuse it after reset() (its previous life must not show)
+      static std::unique_ptr<theta_union> shared; static int shared_lgk = -1;
+      if (!shared || shared_lgk != lgk) { shared.reset(new theta_union(theta_union::builder().set_lg_k((uint8_t)lgk).build())); shared_lgk = lgk; }
+      if (t % 2) { shared->reset(); shared->update(a); shared->update(b); trial_event(shared->get_result(), (double)n, false); }
+      else { auto u = theta_union::builder().set_lg_k((uint8_t)lgk).build(); u.update(a); u.update(b); trial_event(u.get_result(), (double)n, false);
+             shared->update(a); }   // leaves the shared union in whatever mode this trial reaches
     } else if (fam == "hll4" || fam == "hll6" || fam == "hll8") {
       target_hll_type ty = fam == "hll4" ? HLL_4 : fam == "hll6" ? HLL_6 : HLL_8;
       hll_sketch s(lgk, ty);
       for (long j = 0; j < n; j++) s.update(base + j);
       trial_event(s, (double)n, false);
     } else if (fam == "hll-union") {
-      hll_sketch a(lgk, HLL_4), b(lgk, HLL_8);
+      // operand types and lg_k rotate with the trial: sources of a larger lg_k than the union (down-sampling merges of
+      // every source type, cur-min > 0 at large n), both orders
+      static const target_hll_type TY[] = {HLL_4, HLL_6, HLL_8};
+      const int la = lgk + (int)(t % 3), lb2 = lgk + (int)((t / 3) % 2);
+      hll_sketch a(la, TY[t % 3]), b(lb2, TY[(t / 3) % 3]);
       for (long j = 0; j < n; j++) { if (j % 2) a.update(base + j); else b.update(base + j); if (j % 4 == 0) a.update(base + j); }
-      hll_union u(lgk); u.update(a); u.update(b);
-      trial_event(u.get_result(HLL_6), (double)n, false);
+      hll_union u(lgk);
+      if ((t / 9) % 2) { u.update(b); u.update(a); } else { u.update(a); u.update(b); }
+      trial_event(u.get_result(TY[(t / 2) % 3]), (double)n, false);
     } else if (fam == "cpc") {
       cpc_sketch s(lgk);
       for (long j = 0; j < n; j++) s.update(base + j);
       trial_event(s, (double)n, true);
     } else if (fam == "cpc-union") {
-      cpc_sketch a(lgk), b(lgk);
+      // operands of different lg_k in both orders: the union starts at the larger lg_k and must reduce itself
+      const int la = lgk + (int)(t % 3), lb2 = lgk + (int)((t / 3) % 2);
+      cpc_sketch a(la), b(lb2);
       for (long j = 0; j < n; j++) { if (j % 2) a.update(base + j); else b.update(base + j); if (j % 4 == 0) a.update(base + j); }
-      cpc_union u(lgk); u.update(a); u.update(b);
+      cpc_union u(lgk + 2);
+      if ((t / 6) % 2) { u.update(b); u.update(a); } else { u.update(a); u.update(b); }
       trial_event(u.get_result(), (double)n, true);
     }
   }
